@@ -64,7 +64,23 @@ def collinear_points(n, direction, ks=KS, offset=OFFSET, step=STEP):
     return np.array([offset + step * ks[i] * d for i in range(n)])
 
 
+NEAR = {'near_col_1e-9': 1e-9, 'near_col_3e-10': 3e-10}     # opt-in classes (see checks/c01.py)
+
+
+def near_collinear_points(n, eps):
+    """Atoms on a line in a generic direction, each pushed off it by ~eps times its distance:
+    every anchor triple has 0 < sin(angle) ~ eps (NOT exactly collinear)."""
+    d = np.array([0.3, -0.7, 0.2])
+    d /= np.linalg.norm(d)
+    perp = np.cross(d, [0.2, 0.3, 0.9])
+    perp /= np.linalg.norm(perp)
+    w = (0.0, 1.0, -1.0, 0.5, -0.5, 2.0)
+    return np.array([OFFSET + STEP * KS[i] * d + STEP * eps * w[i] * perp for i in range(n)])
+
+
 def ref_positions(geo, n, seed):
+    if geo in NEAR:
+        return near_collinear_points(n, NEAR[geo])
     if geo == 'generic':
         return generic_points(n, seed, tag=100 + n)
     if geo == 'right':
